@@ -41,6 +41,8 @@ enum {
   C_REALLOC,       /* a = slot, b = new size */
   C_FREE_RANGE_WAIT, /* a = first slot, b = count: C_FREE_WAIT for each slot in order */
   C_DUMP,
+  C_SIGNAL,        /* a = flag index: raise a harness flag */
+  C_WAIT_FLAG,     /* a = flag index: wait (yielding) until it is raised */
   C_WAIT_LIVE,     /* a = slot: wait until some thread has allocated into it */
   C_PAGES_LE,      /* a = mark index: the owner's heap must not hold more pages now than at that mark */
   C_WAIT_FREE_DONE,/* like C_WAIT_FREED, but waits until the consumer's mi_free calls have returned */
@@ -55,11 +57,12 @@ typedef struct cprog_s {
   int owner_never_collects;   /* C08-B: teardown of thread 0 must not collect before the page-count oracle */
   int quiescence;             /* 1: check "heap of thread 0 holds no live pages" after everything is freed */
   int arena_blocks;           /* >0: create a private arena with that many blocks (seam B) */
+  int sparse;                 /* 1: blocks above 128 KiB carry the pattern only in their first 64 KiB */
   int leakcheck;              /* 1: after all threads are gone and the main thread force-collected, nothing may stay claimed/mapped (C09) */
 } cprog_t;
 
 #define NSLOTS 96
-typedef struct slot_s { uint8_t* p; size_t req, usable; uint64_t seed; int live; int owner; int arena; mi_memid_t memid; int in_transit; int free_returned; } slot_t;
+typedef struct slot_s { uint8_t* p; size_t req, usable; uint64_t seed; int live; int owner; int arena; mi_memid_t memid; int in_transit; int free_returned; size_t plen; } slot_t;
 static slot_t  g_slots[NSLOTS];
 /* the hand-over flags are accessed with (uninstrumented) atomic builtins: no effect under the token scheduler, and properly
    synchronised hand-overs in the free-running race pass */
@@ -72,6 +75,7 @@ static slot_t  g_slots[NSLOTS];
 static int     g_race = 0;                  /* race pass: threads run freely under ThreadSanitizer; the cross-thread oracles are off */
 static mi_heap_t* g_hs[4];
 static long    g_pages_mark[8];
+static int     g_flags[8];
 static uint64_t g_out[VF_MAX_THREADS];      /* per-thread observation hash */
 static const cprog_t* g_prog;
 static mi_arena_id_t g_arena_id;
@@ -88,7 +92,7 @@ static void obs(int tid, uint64_t v) { g_out[tid] = vf_mix(g_out[tid] ^ v); }
 static int check_live_patterns(const char* when, int tid) {
   if (g_race) return 0;      /* reading other threads' blocks while they free them would be a race of the harness itself */
   for (int i = 0; i < NSLOTS; i++) if (LIVE(i) && !g_slots[i].in_transit) {
-    long bad = vf_pat_check(g_slots[i].p, g_slots[i].usable, g_slots[i].seed);
+    long bad = vf_pat_check(g_slots[i].p, g_slots[i].plen, g_slots[i].seed);
     VF_INC(checks);
     if (bad >= 0) { SVIOL("contents-changed", "%s (thread %d): live block in slot %d %p (req %zu, allocated by thread %d) changed at offset %ld", when, tid, i, g_slots[i].p, g_slots[i].req, g_slots[i].owner, bad); return -1; }
   }
@@ -109,7 +113,8 @@ static int model_add(int slot, void* ptr, size_t req, int tid, const char* what)
   if (!vf_os_accessible(p, usable ? usable : 1)) { SVIOL("inaccessible", "thread %d: %s(%zu) = %p is not in accessible memory", tid, what, req, p); return -1; }
   slot_t* s = &g_slots[slot];
   s->p = p; s->req = req; s->usable = usable; s->owner = tid; s->seed = vf_mix((uintptr_t)p ^ (req * 31) ^ ((uint64_t)slot << 40));
-  vf_pat_write(p, usable, s->seed);
+  s->plen = (g_prog->sparse && usable > 128 * KiB ? 64 * KiB : usable);     /* sparse: only the first 64 KiB of a large block carry the pattern (keeps executions cheap) */
+  vf_pat_write(p, s->plen, s->seed);
   s->in_transit = 0; s->free_returned = 0; __atomic_store_n(&s->live, 1, __ATOMIC_RELEASE);
   obs(tid, (uintptr_t)p);
   return 0;
@@ -117,7 +122,7 @@ static int model_add(int slot, void* ptr, size_t req, int tid, const char* what)
 /* a block leaves the live set immediately BEFORE the call that releases it */
 static int model_remove(int slot, int tid) {
   slot_t* s = &g_slots[slot];
-  long bad = vf_pat_check(s->p, s->usable, s->seed);
+  long bad = vf_pat_check(s->p, s->plen, s->seed);
   VF_INC(checks);
   if (bad >= 0) { SVIOL("contents-changed", "thread %d: block in slot %d %p changed at offset %ld before it was freed", tid, slot, s->p, bad); return -1; }
   __atomic_store_n(&s->live, 0, __ATOMIC_RELEASE);
@@ -137,7 +142,7 @@ static int exec_ops(const cop_t* ops, int tid, int explored) {
       case C_INIT: { void* t = mi_malloc(64); mi_free(t); break; }
       case C_MALLOC: { void* p = mi_malloc((size_t)o->a); if (getenv("VF_DBG_SEG")) fprintf(stderr, "[t%d] malloc(%ld) slot %ld = %p segment %p (slot1 segment %p)\n", tid, o->a, o->b, p, (void*)_mi_ptr_segment(p), (void*)_mi_ptr_segment(g_slots[1].p)); if (model_add((int)o->b, p, (size_t)o->a, tid, "mi_malloc")) return -1; break; }
       case C_FILL: for (long i = 0; i < o->c; i++) { void* p = mi_malloc((size_t)o->a); if (model_add((int)(o->b + i), p, (size_t)o->a, tid, "mi_malloc")) return -1; } break;
-      case C_FREE: if (CLAIM(o->a)) { void* p = g_slots[o->a].p; if (model_remove((int)o->a, tid)) return -1; mi_free(p); obs(tid, 0xF0 + (uint64_t)o->a); } else obs(tid, 0xE0); break;
+      case C_FREE: if (CLAIM(o->a)) { void* p = g_slots[o->a].p; if (model_remove((int)o->a, tid)) return -1; mi_free(p); if (getenv("VF_DBG_SEG")) fprintf(stderr, "[t%d] free slot %ld: segment %p now owned by thread id %zx (me %zx)\n", tid, o->a, (void*)_mi_ptr_segment(p), (size_t)mi_atomic_load_relaxed(&_mi_ptr_segment(p)->thread_id), (size_t)_mi_thread_id()); obs(tid, 0xF0 + (uint64_t)o->a); } else obs(tid, 0xE0); break;
       case C_FREE_WAIT: { long spins = 0; while (!LIVE(o->a)) { vf_yield(); if (++spins > SPIN_MAX) { SVIOL("livelock", "thread %d waits forever for slot %ld", tid, o->a); return -1; } }
                           void* p = g_slots[o->a].p; if (model_remove((int)o->a, tid)) return -1; mi_free(p); SET_FREE_RET(o->a, 1); break; }
       case C_FREE_RANGE_WAIT: for (long i = 0; i < o->b; i++) { long spins = 0; while (!LIVE(o->a + i)) { vf_yield(); if (++spins > SPIN_MAX) { SVIOL("livelock", "thread %d waits forever for slot %ld", tid, o->a + i); return -1; } }
@@ -165,6 +170,8 @@ static int exec_ops(const cop_t* ops, int tid, int explored) {
       case C_COLLECT_REDUCE: mi_collect_reduce((size_t)o->a); break;
       case C_PAGES_MARK: g_pages_mark[o->a] = (long)mi_heap_get_backing()->page_count; if (g_pages_mark[o->a] > vf_sh->counters[6]) vf_sh->counters[6] = g_pages_mark[o->a]; break;
       case C_WAIT_LIVE: { long spins = 0; while (!LIVE(o->a)) { vf_yield(); if (++spins > SPIN_MAX) { SVIOL("livelock", "thread %d waits forever for slot %ld", tid, o->a); return -1; } } break; }
+      case C_SIGNAL: __atomic_store_n(&g_flags[o->a], 1, __ATOMIC_RELEASE); break;
+      case C_WAIT_FLAG: { long spins = 0; while (!__atomic_load_n(&g_flags[o->a], __ATOMIC_ACQUIRE)) { vf_yield(); if (++spins > SPIN_MAX) { SVIOL("livelock", "thread %d waits forever for flag %ld", tid, o->a); return -1; } } break; }
       case C_DUMP: { mi_heap_t* h = mi_heap_get_default(); fprintf(stderr, "[t%d] pages=%zu", tid, h->page_count); for (int b = 0; b <= MI_BIN_FULL; b++) for (mi_page_t* pg = h->pages[b].first; pg; pg = pg->next) fprintf(stderr, " [bin%d bs=%zu used=%d fl=%d]", b, mi_page_block_size(pg), pg->used, (int)mi_page_thread_free_flag(pg)); fprintf(stderr, "\n"); break; }
       case C_PAGES_LE: { long now = (long)mi_heap_get_backing()->page_count; VF_INC(checks); if (now > g_pages_mark[o->a]) { SVIOL("freed-blocks-not-reused", "thread %d: %ld blocks were freed by another thread and the same number allocated again, but the heap grew from %ld to %ld pages: the remotely freed blocks were not reusable by the owner", tid, o->b, g_pages_mark[o->a], now); return -1; } break; }
       case C_WAIT_FREED: case C_WAIT_FREE_DONE: { long spins = 0; for (;;) { int pending = 0; for (long i = 0; i < o->b; i++) if (LIVE(o->a + i) || g_slots[o->a + i].p == NULL || (o->code == C_WAIT_FREE_DONE && !FREE_RET(o->a + i))) pending = 1; if (!pending) break; vf_yield(); if (++spins > SPIN_MAX) { SVIOL("livelock", "thread %d waits forever for slots %ld..", tid, o->a); return -1; } } break; }
@@ -257,7 +264,10 @@ static size_t arena_popcount(mi_arena_id_t id) {
   for (size_t f = 0; f < a->field_count; f++) n += (size_t)__builtin_popcountl(mi_atomic_load_relaxed(&a->blocks_inuse[f]));
   return n;
 }
+int vf_sched_tid(void);
+static void dbg_monitor(int kind, int arg, uintptr_t addr, size_t len) { fprintf(stderr, "[os] thread %d kind=%d arg=%d addr=%p len=%zu\n", vf_sched_tid(), kind, arg, (void*)addr, len); }
 static void c_before(void) {
+  if (getenv("VF_DBG_SEG")) vf_os.monitor = &dbg_monitor;
   vf_sched_silent(&_mi_stats_main, sizeof(_mi_stats_main));
   if (g_prog->arena_blocks > 0) {
     if (mi_reserve_os_memory_ex((size_t)g_prog->arena_blocks * MI_ARENA_BLOCK_SIZE, false, false, true, &g_arena_id) != 0) { fprintf(stderr, "cannot reserve arena\n"); _exit(97); }
@@ -348,6 +358,12 @@ static const cprog_t progs[] = {
   { .name = "AB1", .nthreads = 3, .quiescence = 0,
     .setup = { { { C_INIT } }, { { C_INIT } }, { { C_FILL, S8, 0, 2 }, { C_MALLOC, 1 * MiB, 5 }, { C_FREE, 5 }, { C_THREAD_DONE } } },
     .run   = { { { C_COLLECT, 1 } }, { { C_FREE, 0 }, { C_MALLOC, 1 * MiB, 6 }, { C_MALLOC, 1 * MiB, 7 } }, { { C_END } } } },
+  /* AB2: a thread without any segment needs one for a 4 MiB block and visits the abandoned segments first. The only one is
+     full except for a 1 MiB span whose purge is pending and (after the tick) due: not suitable, so it is purged and handed
+     back -- while another thread adopts it (reclaim-on-free, by freeing a small block of it) and allocates 1 MiB, which only fits that span */
+  { .name = "AB2", .nthreads = 3, .quiescence = 0, .sparse = 1,
+    .setup = { { { C_END } }, { { C_INIT } }, { { C_FILL, 4 * MiB, 0, 7 }, { C_FILL, 1 * MiB, 10, 3 }, { C_MALLOC, S8, 15 }, { C_FREE, 11 }, { C_THREAD_DONE } } },
+    .run   = { { { C_TICK, 1000 }, { C_MALLOC, 4 * MiB, 20 } }, { { C_FREE, 15 }, { C_MALLOC, 1 * MiB, 21 } }, { { C_END } } } },
   /* E1: thread exit racing a remote free of one of its blocks and an allocation that reclaims */
   { .name = "E1", .leakcheck = 1, .nthreads = 3, .quiescence = 0,
     .setup = { { { C_INIT } }, { { C_MALLOC, S8, 0 }, { C_MALLOC, S8, 1 } }, { { C_INIT } } },
@@ -367,6 +383,13 @@ static const cprog_t progs[] = {
   { .name = "E5", .leakcheck = 1, .nthreads = 3, .quiescence = 0,
     .setup = { { { C_INIT } }, { { C_INIT } }, { { C_MALLOC, 1024, 0 }, { C_MALLOC, 1024, 1 }, { C_MALLOC, 1024, 2 }, { C_THREAD_DONE } } },
     .run   = { { { C_FREE, 0 }, { C_MALLOC, 1024, 5 }, { C_MALLOC, 1024, 6 } }, { { C_FREE, 1 }, { C_MALLOC, 1024, 7 }, { C_MALLOC, 1024, 8 } }, { { C_END } } } },
+  /* E6: three segments of three threads; two of the threads are gone; the owner-to-be frees the block in the most recently
+     abandoned segment (adopting it with reclaim-on-free), the third thread exits, then the block in the oldest abandoned
+     segment is freed: with segments straight from the OS this walks the list of abandoned OS segments (unlink of its last
+     entry, append, lookup of an older entry); in the end nothing may stay mapped */
+  { .name = "E6", .leakcheck = 1, .nthreads = 4, .quiescence = 0,
+    .setup = { { { C_INIT } }, { { C_MALLOC, S8, 2 } }, { { C_MALLOC, S8, 0 }, { C_THREAD_DONE } }, { { C_MALLOC, S8, 1 }, { C_THREAD_DONE } } },
+    .run   = { { { C_FREE, 1 }, { C_WAIT_FLAG, 0 }, { C_FREE, 0 }, { C_FREE, 2 } }, { { C_THREAD_DONE }, { C_SIGNAL, 0 } }, { { C_END } }, { { C_END } } } },
   /* E4: sub-processes: a thread of another sub-process allocates while a segment of the main one is abandoned */
   { .name = "E4", .leakcheck = 1, .nthreads = 3, .quiescence = 0,
     .setup = { { { C_INIT } }, { { C_MALLOC, S8, 0 }, { C_MALLOC, S8, 1 } }, { { C_SUBPROC }, { C_INIT } } },
